@@ -122,7 +122,7 @@ def check(case, env):
         r.cmd(dict(op="setvar", vm=0, name="v", value=case["value"]))
         rep = r.run("s = str v; r = call compile s; eq = r isEqualTo v;", vm=0, getvars=["s", "r", "eq", "v"], getvars_struct=True)
         errs = [l for l in rep.get("logs", []) if l["l"] <= 1]
-        eq = rep.get("vars", {}).get("eq", {}).get("sqf")
+        eq = "true" if rep.get("vars", {}).get("eq", {}).get("value", {}).get("v") is True else "false"
         cpp = r.cmd(dict(op="eqhash_vars", vm=0, a="v", b="r")) if "r" in rep.get("vars", {}) else dict(eq=False)
         same_struct = rep.get("vars", {}).get("r", {}).get("value") == rep.get("vars", {}).get("v", {}).get("value")
         if errs or rep.get("result") not in ("ok", "empty") or eq != "true" or not cpp["eq"] or not same_struct:
@@ -143,7 +143,7 @@ def check(case, env):
             lc2 = vs.get("c2", {}).get("value", {}).get("v")
             if lc != expected:
                 return Result(inconclusive=True, labels=labs + ["original_listing_differs_from_reference(C01)"])
-            if errs or lc2 != lc or vs.get("eq", {}).get("sqf") != "true":
+            if errs or lc2 != lc or vs.get("eq", {}).get("value", {}).get("v") is not True:
                 v = viol("code-roundtrip", "compile str c is not instruction-for-instruction equal to c\nbody: %r\nstr c: %r\noriginal: %s\nrecompiled: %s\nlogs: %s" % (
                     body, vs.get("s", {}).get("value", {}).get("v"), json.dumps(lc), json.dumps(lc2), [l["m"][:100] for l in errs[:2]]))
         else:
